@@ -4,7 +4,7 @@ import math
 from ..adapters import _attr, close, handed_cell
 from ..core import Violation
 from ..observe import cell_id
-from ..world import Oracle
+from ..world import Oracle, call_lib
 
 
 def h_max_of(n):
@@ -29,26 +29,22 @@ class SequOOLOracle(Oracle):
         self.exhausted = False
         self.rec_at_exhaustion = None
         self.t = 0
-        if [c for c in ctx.rec.calls if c["partition"] is self.P]:
-            raise Violation("C12.init", "the tree was grown before the first pull")
+        # openings made at construction (the root may be opened eagerly) are booked like those made in pull
+        self._open(ctx, [c for c in ctx.rec.calls if c["partition"] is self.P], ctx.judging, 0)
 
-    def after_pull(self, ctx):
-        self.t += 1
-        t = self.t
-        j = ctx.judging
+    def _open(self, ctx, calls, j, t):
+        """Book (and judge) openings in the order they were made.  Several cells of one depth may be opened in one go
+        (as the pseudo-code does): each must be the best unopened cell of the depth at that moment, and the children
+        are then evaluated once each, in order."""
         st = ctx.extra["stats"]
-        calls = [c for c in ctx.round_calls() if c["partition"] is self.P]
-        if len(calls) > 1 and j:
-            raise Violation("C12.one", "%d cells opened in one pull (round %d)" % (len(calls), t))
-        if calls:
-            c = calls[0]
+        for c in calls:
             par = c["parent"]
             h = par.get_depth()
             if j:
                 if self.exhausted:
                     raise Violation("C12.after", "a cell was opened after the schedule was exhausted (round %d)" % t)
-                if self.queue:
-                    raise Violation("C12.children", "cell %r was opened before all children of the previous opening were evaluated (round %d)"
+                if self.queue and any(q.get_depth() != h + 1 for q in self.queue):
+                    raise Violation("C12.children", "cell %r was opened before all children of the previous depth's openings were evaluated (round %d)"
                                     % (cell_id(par), t))
                 if not c["was_leaf"] or self.is_open.get(id(par)):
                     raise Violation("C12.reopen", "cell %r was opened twice (round %d)" % (cell_id(par), t))
@@ -77,8 +73,16 @@ class SequOOLOracle(Oracle):
             self.is_open[id(par)] = True
             self.opened_at[h] = self.opened_at.get(h, 0) + 1
             self.cur_depth = max(self.cur_depth, h)
-            self.queue = list(c["children"])
+            self.queue.extend(c["children"])
             self.cells_at.setdefault(h + 1, []).extend(c["children"])
+
+    def after_pull(self, ctx):
+        self.t += 1
+        t = self.t
+        j = ctx.judging
+        st = ctx.extra["stats"]
+        calls = [c for c in ctx.round_calls() if c["partition"] is self.P]
+        self._open(ctx, calls, j, t)
         cell = handed_cell(ctx.algo)
         self.cell = cell
         if self.queue:
@@ -103,13 +107,13 @@ class SequOOLOracle(Oracle):
                 st.bump("exhausted_rounds")
             if not self.exhausted:
                 self.exhausted = True
-                self.rec_at_exhaustion = list(map(float, ctx.algo.get_last_point()))
+                self.rec_at_exhaustion = list(map(float, call_lib("get_last_point", ctx.algo.get_last_point)))
 
     def after_round(self, ctx):
         if self.search:
             self.rew[id(self.cell)] = ctx.r
         elif ctx.judging:
-            now = list(map(float, ctx.algo.get_last_point()))
+            now = list(map(float, call_lib("get_last_point", ctx.algo.get_last_point)))
             if now != self.rec_at_exhaustion:
                 raise Violation("C12.recommendation", "a pull after the schedule was exhausted changed the recommendation %r -> %r (round %d)"
                                 % (self.rec_at_exhaustion, now, self.t))
